@@ -1,6 +1,133 @@
 import WhVerif.Util.Proto
+import WhVerif.Model.C06
 namespace WhVerif.Driver.C06
-open Lean WhVerif.Proto
-/-- ops of property C06 are named `c06.<name>`; return `none` for ops that are not ours -/
-def handle (_op : String) (_j : Json) : Option Json := none
+open Lean WhVerif.Proto WhVerif.C06
+
+def errJson : Err → Json
+  | .index => Json.str "IndexError"
+  | .assertion => Json.str "AssertionError"
+  | .value => Json.str "ValueError"
+
+def optErr : Option Err → Json
+  | none => Json.null
+  | some e => errJson e
+
+def cigar? (j : Json) : Option Cigar := do
+  let l ← asArr? j
+  l.mapM (fun p => do
+    match ← natList? p with
+    | [a, b] => some (a, b)
+    | _ => none)
+
+def getCigar? (j : Json) (k : String) : Option Cigar := (getObj? j k).bind cigar?
+def getSeq? (j : Json) (k : String) : Option Seq := (getStr? j k).map String.toList
+def ofSeq (s : Seq) : Json := Json.str (String.ofList s)
+def ofCigar (c : Cigar) : Json := ofList (fun p => ofNatList [p.1, p.2]) c
+
+/-- `[pos, "REF", ["ALT", …]]` -/
+def variant? (j : Json) : Option Variant := do
+  match ← asArr? j with
+  | [p, r, a] =>
+    let alts ← (← asArr? a).mapM asStr?
+    some ⟨← asNat? p, (← asStr? r).toList, alts.map String.toList⟩
+  | _ => none
+
+def getVariants? (j : Json) (k : String) : Option (List Variant) := (getList? j k).bind (·.mapM variant?)
+
+def ofVariant (v : Variant) : Json := Json.arr #[ofNat v.pos, ofSeq v.ref, ofList ofSeq v.alts]
+
+def optNatList? (j : Json) (k : String) : Option (Option (List Nat)) :=
+  match j.getObjVal? k with
+  | .ok Json.null => some none
+  | .ok v => (natList? v).map some
+  | _ => some none
+
+def ofTriples (l : List (Nat × Nat × Nat)) : Json := ofList (fun t => ofNatList [t.1, t.2.1, t.2.2]) l
+
+def aligned? (j : Json) : Option Aligned := do
+  let vs ← (← getList? j "variants").mapM (fun t => do
+    match ← natList? t with
+    | [a, b, c] => some (a, b, c)
+    | _ => none)
+  some ⟨← getBool? j "supp", ← getBool? j "rev", ← getInt? j "start", ← getInt? j "end", vs⟩
+
+/-- `"asis": ["F13", …]` = defects to model as the code was; default: all repaired -/
+def fixes (j : Json) : Fixes :=
+  let l := match getList? j "asis" with | some l => l.filterMap asStr? | none => []
+  ⟨!l.contains "F12", !l.contains "F13", !l.contains "F14", !l.contains "F15", !l.contains "F16"⟩
+
+def handle (op : String) (j : Json) : Option Json :=
+  let fx := fixes j
+  if op == "c06.iter" then
+    match getNatList? j "positions", getNat? j "j", getNat? j "ref_start", getCigar? j "cigar" with
+    | some ps, some jj, some st, some c =>
+      let r := iterateCigar ps jj st c
+      some (Json.mkObj [("yields", ofList (fun y => ofNatList [y.index, y.i, y.consumed, y.queryPos]) r.1),
+                        ("err", optErr r.2)])
+    | _, _, _, _ => some badInput
+  else if op == "c06.locate" then
+    match getNat? j "p", getNat? j "ref_start", getCigar? j "cigar" with
+    | some p, some st, some c =>
+      some (match locate p 0 st 0 c with
+        | some (i, cons, q) => ofNatList [i, cons, q]
+        | none => Json.null)
+    | _, _, _ => some badInput
+  else if op == "c06.prefix" then
+    match getCigar? j "cigar", getNat? j "k" with
+    | some c, some k =>
+      some (match cigarPrefixLength fx.f14 c k with
+        | .ok (a, b) => ofNatList [a, b]
+        | .error e => Json.mkObj [("err", errJson e)])
+    | _, _ => some badInput
+  else if op == "c06.split" then
+    match getCigar? j "cigar", getNat? j "i", getNat? j "consumed" with
+    | some c, some i, some k =>
+      let f := fun (r : Except Err Cigar) => match r with
+        | .ok l => ofCigar l
+        | .error e => Json.mkObj [("err", errJson e)]
+      some (Json.mkObj [("left", f (splitLeft c i k)), ("right", f (splitRight c i k))])
+    | _, _, _ => some badInput
+  else if op == "c06.realign" then
+    match (getObj? j "variant").bind variant?, optNatList? j "restricted", getSeq? j "query", getCigar? j "cigar",
+          getNat? j "i", getNat? j "consumed", getInt? j "query_pos", getSeq? j "reference", getNat? j "overhang" with
+    | some v, some r, some q, some c, some i, some k, some qp, some rf, some oh =>
+      let w := match window fx.f14 v q c i k qp rf oh with
+        | .ok w => Json.mkObj [("query", ofSeq w.query), ("padded", ofList ofSeq w.padded)]
+        | .error e => Json.mkObj [("err", errJson e)]
+      some (Json.mkObj [("allele", match realign fx.f14 levFast v r q c i k qp rf oh with
+        | .ok a => ofOptNat a
+        | .error e => Json.mkObj [("err", errJson e)]), ("window", w)])
+    | _, _, _, _, _, _, _, _, _ => some badInput
+  else if op == "c06.detect_ref" then
+    match getVariants? j "variants", getNat? j "j", getNat? j "ref_start", getCigar? j "cigar", getSeq? j "query",
+          getSeq? j "reference", getNat? j "overhang" with
+    | some vs, some jj, some st, some c, some q, some rf, some oh =>
+      let r := detectRef fx.f14 levFast vs none jj st c q rf oh
+      some (Json.mkObj [("out", ofTriples r.1), ("err", optErr r.2)])
+    | _, _, _, _, _, _, _ => some badInput
+  else if op == "c06.detect_noref" then
+    match getVariants? j "variants", getNat? j "first", getNat? j "ref_start", getCigar? j "cigar", getSeq? j "query",
+          optNatList? j "quals" with
+    | some vs, some f, some st, some c, some q, some qs =>
+      let r := detectNoRef fx vs f st c q qs
+      some (Json.mkObj [("out", ofTriples r.1), ("err", optErr r.2)])
+    | _, _, _, _, _, _ => some badInput
+  else if op == "c06.normalize" then
+    match getVariants? j "variants" with
+    | some vs =>
+      let nvs := vs.map normalize
+      some (Json.mkObj [("normalized", ofList ofVariant nvs), ("valid", ofNatList (nonOverlapping nvs))])
+    | none => some badInput
+  else if op == "c06.group" then
+    match (getList? j "group").bind (·.mapM aligned?), getInt? j "threshold" with
+    | some g, some t =>
+      some (match mergeGroup fx.f12 g t with
+        | some vs => ofTriples vs
+        | none => Json.null)
+    | _, _ => some badInput
+  else if op == "c06.lev" then
+    match getSeq? j "s", getSeq? j "t" with
+    | some s, some t => some (ofNat (levFast s t))
+    | _, _ => some badInput
+  else none
 end WhVerif.Driver.C06
